@@ -554,7 +554,7 @@ def header_lines(case_id, prop, kind, nsteps, conf=None):
         if decay is None:
             decay = 1. / numpy.log10(T)     # the documented default
         for dk in range(1, T + 3):
-            out.append('gain %d %s' % (dk, frac(dk ** (-decay) - 0.1)))
+            out.append('gainv %d %s %s' % (dk, frac(dk ** (-decay) - float(T) ** (-decay)), frac(float(T) ** (-decay))))
     elif kind == 'ss':
         diag = bool(conf['diag'])
         cov = numpy.array(conf['cov'], dtype=float).ravel()
@@ -1830,3 +1830,104 @@ def replay_case(d):
     if not out['findings']:
         print('the stored input no longer fails')
     return 1 if out['findings'] else 0
+
+
+# --------------------------------------------------------------------------
+# directed: acceptance RATES sustained on one side of the target (not only all-accepted /
+# all-rejected histories), and the documented optional decay of the Veitch scheme
+# --------------------------------------------------------------------------
+SS_FAMILIES = ['ss_adaptive_normal', 'ss_adaptive_bounded_normal', 'ss_adaptive_angular',
+               'ss_adaptive_discrete', 'ss_adaptive_bounded_discrete']
+VEITCH_FAMILIES = ['adaptive_normal', 'adaptive_bounded_normal', 'adaptive_angular',
+                   'adaptive_discrete', 'adaptive_bounded_discrete']
+
+
+def _scale_of(prop):
+    import numpy
+    v = getattr(prop, '_std', None)
+    if v is None:
+        v = numpy.sqrt(numpy.diag(numpy.atleast_2d(prop._cov)))
+    return numpy.array(v, dtype=float).copy()
+
+
+def sustained_rate_findings(seed, full=False):
+    """C13 with an acceptance rate that stays below (above) the target without being 0 (1):
+    (i) Sivia-Skilling proposals with a jump interval k > 1, after their slow phase: one step in six is
+        accepted (rate 1/6 < 0.234); once even an all-accepted slow phase cannot lift the rate of the
+        updates so far to the target, no update may WIDEN the proposal;
+    (ii) Veitch proposals with a user supplied adaptation_decay above the default, every step
+        accepted: inside the window no update may NARROW the proposal.
+    Oracles come from the property statement (direction against the sustained rate), not from the
+    code's own rate estimate."""
+    import numpy
+    import forcing
+    rng = random.Random(seed * 104729 + 13)
+    findings, stats = {}, {'ss_runs': 0, 'ss_updates_checked': 0, 'veitch_runs': 0, 'veitch_updates_checked': 0}
+    xi = 0.234
+    fams = SS_FAMILIES if full else rng.sample(SS_FAMILIES, 3)
+    for fam in fams:
+        for k in ((2, 4) if full else (rng.choice([2, 3, 4]),)):
+            d = 5
+            ch, prop, model = forcing.make_chain(fam, rng=random.Random(rng.randrange(10 ** 6)), pattern='RRRRRA',
+                                                 jump_interval=k, window=None, seed=rng.randrange(1, 10 ** 6))
+            d = int(prop.jump_interval_duration)
+            # from here on even an all-accepted slow phase leaves the rate of the updates below the target
+            first = k * d + int((d * (1 - xi) + 2) / (xi - 1.0 / 6.0)) + 12
+            stats['ss_runs'] += 1
+            for it in range(first + (240 if full else 90)):
+                before = _scale_of(prop)
+                ch.step()
+                after = _scale_of(prop)
+                if it >= first:
+                    stats['ss_updates_checked'] += 1
+                    if numpy.any(after > before * (1 + 1e-12)):
+                        findings.setdefault(
+                            'ss-widens-below-target-rate:' + fam,
+                            ('%s with jump interval %d (slow phase of %d proposal steps over), one step in six accepted '
+                             '(rate 0.167 < target %.3f since the start): the update at iteration %d widened the '
+                             'proposal (%r -> %r)' % (fam, k, d, prop.target_rate, it + 1, before.tolist(), after.tolist()),
+                             {'family': fam, 'jump_interval': k, 'pattern': 'RRRRRA', 'iteration': it + 1,
+                              'search': 'sustained_rate'}))
+                        break
+    vf = VEITCH_FAMILIES if full else rng.sample(VEITCH_FAMILIES, 3)
+    for fam in vf:
+        cls, kind, lo, hi = F.FAMILIES[fam]
+        T = 120
+        for rel in (1.6, 2.3):
+            decay = rel / math.log10(T)
+            names = ['x0']
+            prng = random.Random(rng.randrange(10 ** 6))
+            dom = F.domain_for(kind, prng, 0)
+            kw = dict(adaptation_decay=decay)
+            try:
+                if fam in ('adaptive_normal', 'adaptive_discrete'):
+                    prop = cls(names, {'x0': 2.0}, T, **kw)
+                elif fam == 'adaptive_angular':
+                    prop = cls(names, T, **kw)
+                else:
+                    prop = cls(names, {'x0': dom}, T, **kw)
+            except TypeError:
+                continue
+            model = forcing.ForcedModel('A')
+            from epsie.chain import Chain
+            ch = Chain(names, model, [prop], bit_generator=rng.randrange(1, 10 ** 6))
+            ch.start_position = {'x0': F.start_value(kind, dom, prng, 0)}
+            stats['veitch_runs'] += 1
+            for it in range(T - 2):
+                before = _scale_of(prop)
+                try:
+                    ch.step()
+                except Exception:
+                    break
+                after = _scale_of(prop)
+                stats['veitch_updates_checked'] += 1
+                if numpy.any(after < before * (1 - 1e-12)):
+                    findings.setdefault(
+                        'veitch-narrows-under-acceptance:' + fam,
+                        ('%s with adaptation_duration %d and adaptation_decay %.4f (%.1f x the default): every step '
+                         'accepted, yet the update at iteration %d (inside the window) narrowed the proposal '
+                         '(%r -> %r)' % (fam, T, decay, rel, it + 1, before.tolist(), after.tolist()),
+                         {'family': fam, 'adaptation_duration': T, 'adaptation_decay': decay, 'iteration': it + 1,
+                          'search': 'sustained_rate'}))
+                    break
+    return findings, stats
